@@ -4,6 +4,7 @@ import ScnrVerif.Model.SpecIter
 import ScnrVerif.Model.Equiv
 import ScnrVerif.Model.SpecPat
 import ScnrVerif.Model.Class
+import ScnrVerif.Model.World
 import Std.Data.HashMap
 /-!
 # Line-protocol driver for the executable model (`lake exe scnr_model < case.in`)
@@ -43,6 +44,11 @@ structure DState where
   pats : Array (List (Nat × Re)) := #[]
   /-- per mode: lookahead patterns `(tid, re)` -/
   lapats : Array (List (Nat × Re)) := #[]
+  /-- world (C12-C14): saved compilations `id ↦ (automata, configuration, class tables)`,
+      the compile table `cfg ↦ compilation`, the world state -/
+  comps : Array (Array ModeDfa × Array ModeCfg × Array (List (Nat × Nat))) := #[]
+  compileTbl : Array (Option Nat) := #[]
+  world : World := World.empty
   /-- C08: tables of the named primitives, the class expression, the real table -/
   etables : Array (List (Nat × Nat)) := #[]
   cls : Option (Bool × CSet) := none
@@ -389,6 +395,35 @@ def runEquiv {σ τ : Type} [DecidableEq σ] [DecidableEq τ] [Hashable σ] [Has
          s!"S FAIL acceptance differs on the word [{showWord w}]: {X.acc (X.run x0 w)} vs {Y.acc (Y.run y0 w)}"]
       | none => [s!"{tag} DIFF", "S FAIL closedCheck rejected the candidate set (explorer defect)"]
 
+def DState.compile (st : DState) : CfgId → Option CompId := fun c => (st.compileTbl.getD c none)
+def DState.cfgOf (st : DState) : CompId → List ModeCfg := fun c =>
+  match st.comps[c]? with
+  | some (_, cfg, _) => cfg.toList
+  | none => []
+def DState.findOf (st : DState) : CompId → Finder := fun c =>
+  match st.comps[c]? with
+  | some (ms, _, T) =>
+    let T' := T
+    modelFinder ms.toList (fun id ch => inRanges (T'.getD id []) ch)
+  | none => fun _ _ => none
+
+def showOut : Out → Option String
+  | .none => none
+  | .built c => some s!"built {c}"
+  | .buildError => some "builderr"
+  | .tok (some t) => some s!"tok {t.tid} {t.start} {t.stop}"
+  | .tok none => some "none"
+  | .peeked (.matches ms) => some ("peek matches " ++ showToks ms)
+  | .peeked (.reachedEnd ms) => some ("peek end " ++ showToks ms)
+  | .peeked (.modeSwitch ms m) => some (s!"peek switch {m} " ++ showToks ms)
+  | .peeked .notFound => some "peek notfound"
+  | .num n => some s!"mode {n}"
+  | .invalid => some "invalid"
+
+def wstep (st : DState) (o : Op) : DState × Option String :=
+  let r := World.step st.compile st.cfgOf st.findOf st.world o
+  ({ st with world := r.1 }, showOut r.2)
+
 def step (st : DState) (line : String) : DState × Option String :=
   match line.trimAscii.toString.splitOn " " with
   | "case" :: r => (st, some ("case " ++ " ".intercalate r))
@@ -396,7 +431,8 @@ def step (st : DState) (line : String) : DState × Option String :=
     let (sp, v) := specVerdict st r
     ({ st with specs := sp }, v)
   | "#" :: _ => (st, none)
-  | ["scanner"] => ({}, none)
+  | ["scanner"] =>
+    ({ ({} : DState) with comps := st.comps, compileTbl := st.compileTbl, world := st.world }, none)
   | "class" :: id :: r =>
     match id.toNat? with
     | some i => ({ st with tables := (ensure st.tables i []).set! i (pairs (nats r)) }, none)
@@ -532,6 +568,63 @@ def step (st : DState) (line : String) : DState × Option String :=
     let expected := pairs (nats r)
     let ok := (List.range 128).all fun c => inRanges st.real c == inRanges expected c
     (st, some (if ok then "asciicheck ok\nS ok" else "asciicheck DIFF\nS FAIL ASCII restriction of a Perl class differs"))
+  | ["world"] => ({ st with world := World.empty, comps := #[], compileTbl := #[] }, none)
+  | ["savecomp", i] =>
+    match i.toNat? with
+    | some i =>
+      ({ st with comps := (ensure st.comps i (#[], #[], #[])).set! i (st.modes, st.cfg, st.tables),
+                 modes := #[], cfg := #[], tables := #[] }, none)
+    | none => (st, some "bad-op")
+  | ["compile", c, r] =>
+    match c.toNat? with
+    | some c => ({ st with compileTbl := (ensure st.compileTbl c none).set! c r.toNat? }, none)
+    | none => (st, some "bad-op")
+  | ["wbuild", s, c] =>
+    match s.toNat?, c.toNat? with
+    | some s, some c => wstep st (.build s c)
+    | _, _ => (st, some "bad-op")
+  | ["wbuildu", s, c] =>
+    match s.toNat?, c.toNat? with
+    | some s, some c => wstep st (.buildUncached s c)
+    | _, _ => (st, some "bad-op")
+  | ["wsetmode", s, m] =>
+    match s.toNat?, m.toNat? with
+    | some s, some m => wstep st (.scannerSetMode s m)
+    | _, _ => (st, some "bad-op")
+  | ["wcurmode", s] =>
+    match s.toNat? with
+    | some s => wstep st (.scannerCurrentMode s)
+    | none => (st, some "bad-op")
+  | "wfinditer" :: s :: k :: r =>
+    match s.toNat?, k.toNat? with
+    | some s, some k => wstep st (.findIter s k (nats r))
+    | _, _ => (st, some "bad-op")
+  | ["wnext", k] =>
+    match k.toNat? with
+    | some k => wstep st (.iter k .next)
+    | none => (st, some "bad-op")
+  | ["wpeek", k, n] =>
+    match k.toNat?, n.toNat? with
+    | some k, some n => wstep st (.iter k (.peek n))
+    | _, _ => (st, some "bad-op")
+  | ["wsetoff", k, o] =>
+    match k.toNat?, o.toNat? with
+    | some k, some o => wstep st (.iter k (.setOffset o))
+    | _, _ => (st, some "bad-op")
+  | ["wisetmode", k, m] =>
+    match k.toNat?, m.toNat? with
+    | some k, some m => wstep st (.iter k (.setMode m))
+    | _, _ => (st, some "bad-op")
+  | ["wicurmode", k] =>
+    match k.toNat? with
+    | some k => wstep st (.iter k .currentMode)
+    | none => (st, some "bad-op")
+  | ["wdrop", k] =>
+    match k.toNat? with
+    | some k => wstep st (.dropIter k)
+    | none => (st, some "bad-op")
+  | "oracle" :: "ok" :: _ => (st, some "oracle\nS ok")
+  | "oracle" :: "FAIL" :: r => (st, some ("oracle\nS FAIL " ++ " ".intercalate r))
   | "input" :: r => ({ st with input := nats r, iters := #[], specs := #[], table := #[] }, none)
   | ["finder", "model"] => ({ st with useTable := false }, none)
   | ["finder", "table"] => ({ st with useTable := true }, none)
